@@ -286,14 +286,14 @@ theorem runLoop_flat (cl : Nat → Nat) (fuel : Nat) (s : PState) (rd : Rd)
         obtain ⟨hg, hr20, hp⟩ := print_only_ground s _ x hx hxp
         simp only [pstep] at hp
         simp only [hp, deliver, Bool.false_eq_true, if_false]
-        obtain ⟨us, g1, g2, g3, g4, g5, g6, g7, g8, _⟩ :=
+        obtain ⟨us, g1, g2, g3, g4, g5, g6, g7, g8, _, g10⟩ :=
           printLoop_spec (max 1 (cl rd.pos)) (rd1.remaining + 1) rd1 [(unit1 (b :: t)).raw]
         generalize hpl : printLoop (max 1 (cl rd.pos)) (rd1.remaining + 1) rd1 [(unit1 (b :: t)).raw] = pl
           at g1 g2 g3 g4 g6 g7 g8
         obtain ⟨g, rd2⟩ := pl
         simp only at g1 g2 g3 g4 g6 g7 g8
         rw [h2] at g2 g3 g4
-        -- the units taken by the look-ahead are absorbable
+        -- the units taken by the look-ahead are not C0 controls (oracle) and are valid (the loop itself)
         have habs : ∀ u ∈ us, absorbable u = true := by
           apply absRun_ge us (units (bytesOf rd2))
           rw [← g2]
@@ -303,18 +303,12 @@ theorem runLoop_flat (cl : Nat → Nat) (fuel : Nat) (s : PState) (rd : Rd)
             simp only [List.length_cons, List.length_nil] at this
             have h1 := hR.1
             omega
-        have hlook : us.map U.look = us.map U.raw := by
-          apply List.map_congr_left
-          intro u hu
-          have := habs u hu
-          simp only [absorbable, Bool.and_eq_true, Bool.not_eq_eq_eq_not, Bool.not_true, decide_eq_true_eq] at this
-          simp [U.look, this.1]
         have hraw : ∀ r ∈ us.map U.raw, 0x20 ≤ r := by
           intro r hr
           obtain ⟨u, hu, rfl⟩ := List.mem_map.mp hr
           have := habs u hu
-          simp only [absorbable, Bool.and_eq_true, decide_eq_true_eq] at this
-          exact this.2
+          simp only [absorbable, g10 u hu, Bool.false_or, decide_eq_true_eq] at this
+          exact this
         have hR2 : Respects cl rd2.pos (units (bytesOf rd2)) := by
           have := Respects_append cl _ us _ (by rw [← g2]; exact hR.2)
           rw [g6, h3]
@@ -326,7 +320,7 @@ theorem runLoop_flat (cl : Nat → Nat) (fuel : Nat) (s : PState) (rd : Rd)
           simp only [List.length_cons] at hf
           omega
         have ihh := ih s rd2 hR2 hlen
-        simp only [flat, flat_append, ihh, g1, hlook, g2, List.map_append]
+        simp only [flat, flat_append, ihh, g1, g2, List.map_append]
         rw [runRunes_ground_text s hg _ _ hraw]
         simp
       · have hnp : ∀ x ∈ (step handTable s (.rune (unit1 (b :: t)).raw)).out, isPrint x = false := by
@@ -456,11 +450,24 @@ theorem InvRd.cut {chunks0 : List (List Nat)} {rd : Rd} (h : InvRd chunks0 rd) (
   simp only [bytesOf, hb, h2, List.nil_append] at h1
   omega
 
+theorem startsInvalid_of_flatten (cl : Nat → Nat) (cut : Nat → Prop) (pos : Nat) (blocks : List (List U)) (u : U)
+    (rest : List U) (hB : BlocksOk cl cut pos blocks) (hf : blocks.flatten = u :: rest) (hu : u.inv = true) :
+    startsInvalid blocks := by
+  cases blocks with
+  | nil => simp at hf
+  | cons b bs =>
+    cases b with
+    | nil => exact absurd rfl hB.1
+    | cons u0 t0 =>
+      simp only [List.flatten_cons, List.cons_append, List.cons.injEq] at hf
+      show u0.inv = true
+      rw [hf.1]; exact hu
+
 /-- **Text as blocks.**  On a stream of bytes ≥ 0x20, whatever the reads and the oracle (no
     hypothesis on it): the items are Prints then `EOF{}`; the Prints are consecutive blocks of the
-    units of the stream (first unit through `readRune`, the following ones through the look-ahead:
-    `render`); each block is one cluster of the oracle — or shorter, and then it ends exactly at a
-    read boundary. -/
+    units of the stream (`render`: every unit as its own rune; only the first unit of a block can be
+    an invalid byte); each block is one cluster of the oracle — or shorter, and then it ends exactly
+    at a read boundary or in front of an invalid byte. -/
 theorem runLoop_blocks (cl : Nat → Nat) (chunks0 : List (List Nat)) (fuel : Nat) (s : PState)
     (hs : s.state = .ground) (he : s.exit = none) (rd : Rd) (htext : ∀ b ∈ bytesOf rd, 0x20 ≤ b)
     (hinv : InvRd chunks0 rd) (hf : (bytesOf rd).length + 1 ≤ fuel) :
@@ -495,7 +502,7 @@ theorem runLoop_blocks (cl : Nat → Nat) (chunks0 : List (List Nat)) (fuel : Na
       have hp := ground_print s hs _ hr20
       simp only [pstep] at hp
       simp only [hp, deliver, Bool.false_eq_true, if_false]
-      obtain ⟨us, g1, g2, g3, g4, g5, g6, g7, g8, ⟨k2, g9⟩⟩ :=
+      obtain ⟨us, g1, g2, g3, g4, g5, g6, g7, g8, ⟨k2, g9⟩, g10⟩ :=
         printLoop_spec (max 1 (cl rd.pos)) (rd1.remaining + 1) rd1 [(unit1 (b :: t)).raw]
       generalize hpl : printLoop (max 1 (cl rd.pos)) (rd1.remaining + 1) rd1 [(unit1 (b :: t)).raw] = pl
         at g1 g2 g3 g4 g6 g7 g8 g9
@@ -526,7 +533,7 @@ theorem runLoop_blocks (cl : Nat → Nat) (chunks0 : List (List Nat)) (fuel : Na
       · rw [List.flatten_cons, j2, units_cons, g2]; rfl
       · have hpos : rd2.pos = rd.pos + ulen (unit1 (b :: t) :: us) := by
           rw [g6, h3]; simp only [ulen, List.map_cons, List.sum_cons]; omega
-        refine ⟨by simp, ?_, ?_, by rw [← hpos]; exact j3⟩
+        refine ⟨by simp, by simpa using g10, ?_, ?_, by rw [← hpos]; exact j3⟩
         · by_cases hne : us = []
           · subst hne; simp only [List.length_cons, List.length_nil]; omega
           · have := g7 hne
@@ -535,16 +542,29 @@ theorem runLoop_blocks (cl : Nat → Nat) (chunks0 : List (List Nat)) (fuel : Na
         · have hrem : rd1.remaining = (t.length + 1) - (unit1 (b :: t)).sz := by
             rw [remaining_eq, h2]; simp
           simp only [List.length_cons, List.length_nil] at g8 ⊢
-          rcases g8 with h | h | h
+          rcases g8 with h | h | h | ⟨u, rest, h, hu⟩
           · left
             by_cases hne : us = []
             · subst hne; simp only [List.length_nil] at h ⊢; omega
             · have := g7 hne
               simp only [List.length_cons, List.length_nil] at this
               omega
-          · right; rw [← hpos]; exact hinv2.cut h
+          · right; left; rw [← hpos]; exact hinv2.cut h
           · exfalso; omega
+          · right; right
+            rw [h] at j2
+            exact startsInvalid_of_flatten cl _ _ blocks u rest j3 j2 hu
 
+
+theorem flat_blocks (blocks : List (List U)) :
+    flat (blocks.map (fun b => Item.print (render b)) ++ [.seq .eof]) =
+      (blocks.flatten.map U.raw).map Seq.print ++ [.eof] := by
+  induction blocks with
+  | nil => rfl
+  | cons b rest ih =>
+    simp only [List.map_cons, List.cons_append, flat, List.flatten_cons, List.map_append,
+      List.append_assoc]
+    rw [ih]; rfl
 
 theorem take_filter_nonempty (cs : List (List Nat)) (k : Nat) :
     ∃ k', ((cs.filter (!·.isEmpty)).take k).flatten = (cs.take k').flatten := by
@@ -572,8 +592,8 @@ theorem BlocksOk_mono (cl : Nat → Nat) (P Q : Nat → Prop) (hPQ : ∀ n, P n 
   induction bl generalizing pos with
   | nil => trivial
   | cons b rest ih =>
-    obtain ⟨h1, h2, h3, h4⟩ := h
-    exact ⟨h1, h2, h3.imp id (hPQ _), ih _ h4⟩
+    obtain ⟨h1, h2, h3, h4, h5⟩ := h
+    exact ⟨h1, h2, h3, h4.imp id (Or.imp (hPQ _) id), ih _ h5⟩
 
 theorem runChunks_blocks (cl : Nat → Nat) (chunks : List (List Nat)) (htext : ∀ b ∈ chunks.flatten, 0x20 ≤ b) :
     ∃ blocks : List (List U),
